@@ -106,16 +106,24 @@ pub fn scenario(ch: &mut Chooser, thorough: bool) -> Exec {
         if reader_sends_byte {
             let _ = s.write_all(&[0x55]).await;
         }
-        if reader_half_closes {
+        // with owned halves the half close goes through the write half, which is then dropped
+        // while the read half keeps reading
+        if reader_half_closes && !split {
             let _ = s.shutdown().await;
         }
         st_r.borrow_mut().r_accepted = true;
         let (mut rd, _wr_keep): (Box<dyn tokio::io::AsyncRead + Unpin>, Option<turmoil::net::tcp::OwnedWriteHalf>);
         let mut peekable: Option<TcpStream> = None;
         if split {
-            let (r, w) = s.into_split();
+            let (r, mut w) = s.into_split();
             rd = Box::new(r);
-            _wr_keep = Some(w);
+            if reader_half_closes {
+                let _ = w.shutdown().await;
+                drop(w);
+                _wr_keep = None;
+            } else {
+                _wr_keep = Some(w);
+            }
         } else {
             peekable = Some(s);
             rd = Box::new(tokio::io::empty());
